@@ -597,6 +597,8 @@ def method(interp, v, name):
 
 def _list_method(interp, lst, name):
     ops = interp.ops
+    if name in _LIST_ANY or name in ('remove', 'sort'):
+        interp.mutlog.append(lst)
     if name == 'append':
         return Builtin('append', lambda x: lst.append(x))
     if name == 'extend':
@@ -665,6 +667,8 @@ def _list_method(interp, lst, name):
 
 
 def _dict_method(interp, d, name):
+    if name in ('clear', 'update', 'pop', 'setdefault'):
+        interp.mutlog.append(d)
     if name == 'get':
         def get(k, default=None):
             try:
@@ -807,11 +811,22 @@ def concat_strs(interp, parts):
 
 # ------------------------------------------------------------------ numpy
 
+class GenStack:
+    """np.array([g1, g2, ...]) of symbolic-length rows (shape (k, n))"""
+
+    def __init__(self, rows):
+        self.rows = rows
+
+
 def _asdata(interp, x):
     """array-like -> nested list data (or scalar)"""
     if isinstance(x, NDArr):
         return x.data
+    if isinstance(x, GenStack):
+        return x
     if isinstance(x, (list, tuple)):
+        if x and all(isinstance(e, GenArr) for e in x):
+            return GenStack(list(x))
         return [_asdata(interp, e) for e in x]
     if isinstance(x, range):
         return list(x)
@@ -824,6 +839,8 @@ def np_array(interp, x, dtype=None, **kw):
     if isinstance(x, GenArr):
         return x
     d = _asdata(interp, x)
+    if isinstance(d, GenStack):
+        return d
     if isinstance(d, list):
         # ragged / mixed scalar+array rows: numpy would broadcast or fail
         _check_rect(d)
@@ -940,6 +957,11 @@ def np_sum(interp, x, axis=None, **kw):
     if isinstance(x, SumV):
         return x
     d = _asdata(interp, x)
+    if isinstance(d, GenStack):
+        if axis is not None:
+            raise Unsupported('axis sum over symbolic-length rows')
+        return interp.ops.sum_list([np_sum(interp, g) for g in d.rows[1:]],
+                                   np_sum(interp, d.rows[0]))
     if not isinstance(d, list):
         return d
     if axis is None:
@@ -952,6 +974,11 @@ def np_prod(interp, x, axis=None, **kw):
     if isinstance(x, GenArr):
         return SumV(x.n, x.elem, 1, 'prod')
     d = _asdata(interp, x)
+    if isinstance(d, GenStack):
+        acc = np_prod(interp, d.rows[0])
+        for g in d.rows[1:]:
+            acc = interp.ops.binop(MUL, acc, np_prod(interp, g))
+        return acc
     if not isinstance(d, list):
         return d
     if axis is None:
